@@ -337,10 +337,7 @@ func (rr *c08Run) violate(c *rxCase, api, cause, mech string, src []byte, tmpl s
 	if rr.perKind[key] == 1 {
 		rr.perKind[grp]++
 	}
-	if rr.perKind[key] > 2 || rr.perKind[grp] > 150 {
-		rr.st.TotalViolations++
-		return
-	}
+	// (volume is handled by stats.violate: recorded inputs of the ledger are only counted)
 	rr.st.violate(violation{Kind: kind, Case: c.idx, Detail: d, Sig: sig, Expected: want, Got: got})
 }
 
